@@ -32,6 +32,10 @@ def specials_512(rng):
                 s.add(v)
     s |= {2**512 - 1, L * L, L * L - 1, L * (2**256 - 1), (L - 1) << 256, L << 256, (2**256 - 1) << 256, 2**256 - 1,
           (2**260) % (2**512), 2**260 * L, int("ff" * 32 + "00" * 32, 16)}
+    for k in range(400):                       # low 260 bits just below 2^260, high part large: the reducer's input bound
+        lo = 2**260 - 1 - rng.getrandbits(rng.choice([8, 64, 200, 250]))
+        hi = rng.choice([2**252 - 1 - rng.getrandbits(200), rng.getrandbits(252), 2**252 - 1])
+        s.add((hi << 260) | lo)
     for k in range(20):
         s.add(rng.getrandbits(256))            # high half zero
         s.add(rng.getrandbits(256) << 256)     # low half zero
@@ -58,6 +62,8 @@ def gen(rng, quick):
         ops.append({"op": "sc.from_bytes_mod_order", "in": [le(rng.getrandbits(256))], "out": "A"})
         ops.append({"op": "sc.from_bytes_mod_order_wide", "in": [le(rng.getrandbits(512), 64)], "out": "B"})
         ops.append({"op": "sc.from_canonical_bytes", "in": [le(rng.getrandbits(rng.choice([250, 252, 253, 254, 256])))], "out": "C"})
+    for v in (0, 2**512 - 1, L, rng.getrandbits(512), rng.getrandbits(512)):
+        ops.append({"op": "rng.scalar", "in": [le(v, 64)], "out": "A"})
     for n in (0, 1, 2, 55, 56, 111, 112, 113, 127, 128, 129, 200, 1000):
         m = [rng.randrange(256) for _ in range(n)]
         ops.append({"op": "sc.hash_from_bytes", "in": [m], "out": "A"})
@@ -92,6 +98,18 @@ def gen(rng, quick):
             ops.append({"op": "sc.eq", "in": ["A", "B"]})
             ops.append({"op": "sc.eq", "in": ["A", "A"]})
             ops.append({"op": "sc.cond_select", "in": ["A", "B"], "out": "D", "c": rng.random() < 0.5})
+    # every special value as either operand of every operator against a small fixed set (borrow / carry chains that
+    # only start at an all-ones or all-zero limb need a specific partner)
+    fixed = [0, 1, L - 1, 2**52, 2**104, 2**156, 2**208, 2**29, 2**116, 2**232, (L - 1) // 2]
+    for v in red:
+        sc("A", v)
+        for w in fixed:
+            sc("B", w % L)
+            ops.append({"op": "sc.sub", "in": ["B", "A"], "out": "C"})
+            ops.append({"op": "sc.sub", "in": ["A", "B"], "out": "C"})
+        ops.append({"op": "sc.add", "in": ["A", "B"], "out": "C"})
+        ops.append({"op": "sc.mul", "in": ["A", "B"], "out": "C"})
+        ops.append({"op": "sc.neg", "in": ["A"], "out": "C"})
     sc("Z", 0)
     ops.append({"op": "sc.neg", "in": ["Z"], "out": "D"})
     # inversion
